@@ -3,12 +3,18 @@
 package main
 
 import (
+	"bufio"
 	"encoding/json"
 	"errors"
 	"fmt"
 	"net"
+	"os"
+	"path/filepath"
 	"sort"
 	"time"
+
+	fschannel "github.com/honeytrap/honeytrap/pushers/file"
+	"github.com/honeytrap/honeytrap/pushers"
 
 	"github.com/honeytrap/honeytrap/event"
 	"verif/harness/hx"
@@ -243,7 +249,7 @@ type Obs struct {
 }
 
 func sameKeys(have map[string]bool, snap []KV) bool {
-	want := map[string]bool{"date": true}
+	want := map[string]bool{}
 	for _, kv := range snap {
 		want[string(kv.Key)] = true
 	}
@@ -279,7 +285,7 @@ func observe1(opts []OptD) (Obs, []string, string) {
 	var ob Obs
 	e.Range(func(k, v interface{}) bool {
 		ks, ok := k.(string)
-		if !ok || ks == "date" {
+		if !ok {
 			return true
 		}
 		ob.Snap = append(ob.Snap, KV{Key: hx.B(ks), Val: project(v)})
@@ -302,7 +308,6 @@ func observe1(opts []OptD) (Obs, []string, string) {
 				json.Unmarshal(kb, &ks)
 				want[ks] = true
 			}
-			want["date"] = true
 			ob.JSONKeys = len(want) == len(have)
 			for k := range want {
 				if !have[k] {
@@ -321,7 +326,7 @@ func observe1(opts []OptD) (Obs, []string, string) {
 }
 
 var strPool = []string{"", "a", "ssh", "root", "\x00", "\xff\xfe", "héllo", "line\nbreak", "tab\t\"q\""}
-var keyPool = []string{"k1", "k2", "token", "category", "service", "http.url", "x-\xff", "source-ip", "custom.key"}
+var keyPool = []string{"k1", "k2", "token", "category", "service", "http.url", "x-\xff", "source-ip", "custom.key", "date"}
 var ipPool = []string{"127.0.0.1", "10.0.0.5", "::1", "2001:db8::1", "0.0.0.0", "255.255.255.255"}
 var strCtors = []string{"Token", "Category", "Type", "Sensor", "Service", "Protocol", "RemoteAddr", "HostAddr"}
 
@@ -399,6 +404,104 @@ func genOpt(r *hx.Rand, depth int, allowBad bool) OptD {
 	}
 }
 
+// fileChannel sends events through the real `file` channel and mutates each event right
+// after Send returned: the JSON line written for it must show the event as it was when it
+// was sent (every key stored then, no key stored later, payload fields unchanged).
+func fileChannel(lists [][]OptD, dir string) ([]Obs, [][]string, []string) {
+	path := filepath.Join(dir, "c05-filechan.log")
+	os.Remove(path)
+	ch, err := fschannel.New(func(c pushers.Channel) error {
+		fb, ok := c.(*fschannel.FileBackend)
+		if !ok {
+			return fmt.Errorf("unexpected channel type %T", c)
+		}
+		fb.File = path
+		return nil
+	})
+	if err != nil {
+		hx.Fatal("file channel: %v", err)
+	}
+	obs := make([]Obs, len(lists))
+	coqs := make([][]string, len(lists))
+	crash := make([]string, len(lists))
+	snaps := make([]map[string]ValD, len(lists))
+	for i, opts := range lists {
+		var gos []event.Option
+		for _, o := range opts {
+			g, c := build(o)
+			gos = append(gos, g)
+			coqs[i] = append(coqs[i], c)
+		}
+		gos = append(gos, event.Custom("verif.line", i))
+		coqs[i] = append(coqs[i], fmt.Sprintf("OStore %s (VInt %s)", hx.CoqStr("verif.line"), hx.CoqZ(int64(i))))
+		e := event.New(gos...)
+		snaps[i] = map[string]ValD{}
+		e.Range(func(k, v interface{}) bool {
+			ks, _ := k.(string)
+			obs[i].Snap = append(obs[i].Snap, KV{Key: hx.B(ks), Val: project(v)})
+			snaps[i][ks] = project(v)
+			return true
+		})
+		sort.Slice(obs[i].Snap, func(a, b int) bool { return string(obs[i].Snap[a].Key) < string(obs[i].Snap[b].Key) })
+		ch.Send(e)
+		// the sender keeps using its event (as the bus does: a later channel stores the token)
+		e.Store("verif.after-send", "late")
+		e.Store("payload-hex", "00")
+		e.Store("payload-length", -1)
+		obs[i].ToMapKeys = true
+	}
+	time.Sleep(1300 * time.Millisecond) // idle flush
+	f, err := os.Open(path)
+	if err != nil {
+		for i := range crash {
+			crash[i] = "file channel wrote nothing: " + err.Error()
+		}
+		return obs, coqs, crash
+	}
+	defer f.Close()
+	sc := bufio.NewScanner(f)
+	sc.Buffer(make([]byte, 1<<20), 1<<24)
+	seen := map[int]bool{}
+	for sc.Scan() {
+		var m map[string]interface{}
+		if json.Unmarshal(sc.Bytes(), &m) != nil {
+			continue
+		}
+		idx, ok := m["verif.line"].(float64)
+		if !ok || int(idx) < 0 || int(idx) >= len(lists) || seen[int(idx)] {
+			continue
+		}
+		i := int(idx)
+		seen[i] = true
+		obs[i].JSONOk = true
+		good := len(m) == len(snaps[i])
+		for k, v := range snaps[i] {
+			kb, _ := json.Marshal(k)
+			var ks string
+			json.Unmarshal(kb, &ks)
+			got, present := m[ks]
+			if !present {
+				good = false
+				continue
+			}
+			switch v.Kind {
+			case "int":
+				if g, ok := got.(float64); !ok || int64(g) != v.Int {
+					good = false
+				}
+			case "str":
+				if k == "payload-hex" {
+					if g, ok := got.(string); !ok || g != string(v.Str) {
+						good = false
+					}
+				}
+			}
+		}
+		obs[i].JSONKeys = good
+	}
+	return obs, coqs, crash
+}
+
 func main() {
 	o := hx.ParseArgs()
 	r := hx.NewRand(o.Seed)
@@ -472,6 +575,33 @@ func main() {
 		coq := fmt.Sprintf("mkCase %s %s %s %s %s %s", hx.CoqN(uint64(i)), hx.CoqList(cs, "opt"),
 			hx.CoqList(snap, "(key * value)"), hx.CoqBool(ob.JSONOk), hx.CoqBool(ob.JSONKeys), hx.CoqBool(ob.ToMapKeys))
 		cases = append(cases, hx.Case{ID: i, Kind: kinds[i], Input: opts, Obs: ob, Coq: coq, Crash: crash})
+	}
+	if o.Only == "" {
+		nf := 60
+		var lists [][]OptD
+		for i := 0; i < nf; i++ {
+			n := r.Range(1, 5)
+			var opts []OptD
+			for j := 0; j < n; j++ {
+				opts = append(opts, genOpt(r, 0, false))
+			}
+			if i%2 == 0 {
+				opts = append(opts, OptD{Kind: "Payload", Payload: r.Bytes(r.PickInt([]int{0, 1, 5, 64, 300}))})
+			}
+			lists = append(lists, opts)
+		}
+		fobs, fcoqs, fcrash := fileChannel(lists, o.Out)
+		for j := range lists {
+			id := len(cases)
+			dist["kind:filechan"]++
+			var snap []string
+			for _, kv := range fobs[j].Snap {
+				snap = append(snap, fmt.Sprintf("(%s, %s)", hx.CoqBytes(kv.Key), coqVal(kv.Val)))
+			}
+			coq := fmt.Sprintf("mkCase %s %s %s %s %s %s", hx.CoqN(uint64(id)), hx.CoqList(fcoqs[j], "opt"),
+				hx.CoqList(snap, "(key * value)"), hx.CoqBool(fobs[j].JSONOk), hx.CoqBool(fobs[j].JSONKeys), hx.CoqBool(fobs[j].ToMapKeys))
+			cases = append(cases, hx.Case{ID: id, Kind: "filechan", Input: lists[j], Obs: fobs[j], Coq: coq, Crash: fcrash[j]})
+		}
 	}
 	hx.Write(o, "C05", "ev", "From HT Require Import Common.Bytes C05.Model C05.Check.", "case", cases, dist, nil, 300)
 }
